@@ -60,6 +60,13 @@ func (inc *Incarnation) sysCall(ctx context.Context, op, note string, kinds []Fa
 }
 
 func (d *SimDriver) OpenLedger(ctx context.Context, name string) (ledgercontroller.Store, *ledger.Ledger, error) {
+	if d.inc.realDriver != nil {
+		st, l, err := d.inc.realDriver.OpenLedger(ctx, name)
+		if err != nil {
+			return nil, nil, err
+		}
+		return &SimStore{DefaultStoreAdapter: systemcontroller.NewDefaultStoreAdapter(st), w: d.inc.w, l: *l}, l, nil
+	}
 	var l *ledger.Ledger
 	err := d.inc.sysCall(ctx, "OpenLedger", name, []FaultKind{FCrash}, func(sess *Session) error {
 		row, _ := sess.get(rowKey{"ledger", "", name}).(*LedgerRow)
@@ -76,6 +83,10 @@ func (d *SimDriver) OpenLedger(ctx context.Context, name string) (ledgercontroll
 }
 
 func (d *SimDriver) CreateLedger(ctx context.Context, l *ledger.Ledger) error {
+	if d.inc.realDriver != nil {
+		_, err := d.inc.realDriver.CreateLedger(ctx, l)
+		return err
+	}
 	return d.inc.sysCall(ctx, "CreateLedger", l.Name, []FaultKind{FCrash}, func(sess *Session) error {
 		k := rowKey{"ledger", "", l.Name}
 		if err := sess.lockRow(k); err != nil {
